@@ -111,7 +111,8 @@ Definition conv_float (j : json) : conv dec :=
   | _ => CHard
   end.
 
-(** float64 -> uint: truncation; negative and huge values are NOT rejected (Go conversion, amd64) *)
+(** float64 -> uint: truncation (Go conversion, amd64); since the repair of F6b it only ever sees whole numbers in
+    [0, 2^53): [uints_ok] below *)
 Definition conv_uint (j : json) : conv Z :=
   match j with
   | JNull => CNil
@@ -207,7 +208,33 @@ Definition tm_valid (m : tileMatrix) : bool :=
   && (1 <=? tm_tileWidth m) && (1 <=? tm_tileHeight m)                      (* required,min=1 *)
   && (1 <=? tm_matrixWidth m) && (1 <=? tm_matrixHeight m).
 
-Definition decodeTM (o : obj) : outcome tileMatrix :=
+(** checkUnsignedIntegers (repair of F6b, /repo 4bfd034), on the RAW map before marshmallow: a member that is a JSON
+    number must be whole, not negative and below 2^53 (as float64); other JSON types are left to the type check of the
+    conversion; 0 passes here (and is rejected by `required,min=1` where that applies) *)
+Definition uint_number_ok (q : Q) : bool :=
+  Qle_bool 0 q && (Qnum q mod Zpos (Qden q) =? 0) && Qltb q (inject_Z (2 ^ 53)).
+
+Definition uint_member_ok (k : string) (o : obj) : bool :=
+  match lookup_last k o with
+  | Some (JNum d) => match f64_dec d with FNum q => uint_number_ok q | FInf _ => false end
+  | _ => true
+  end.
+
+Definition vmw_elem_ok (j : json) : bool :=
+  match j with
+  | JObj e => uint_member_ok "coalesce" e && uint_member_ok "minTileRow" e && uint_member_ok "maxTileRow" e
+  | _ => true
+  end.
+
+Definition uints_ok (o : obj) : bool :=
+  uint_member_ok "tileWidth" o && uint_member_ok "tileHeight" o
+  && uint_member_ok "matrixWidth" o && uint_member_ok "matrixHeight" o
+  && match lookup_last "variableMatrixWidths" o with
+     | Some (JArr l) => forallb vmw_elem_ok l
+     | _ => true
+     end.
+
+Definition decodeTM_fields (o : obj) : outcome tileMatrix :=
   let c_id := member "id" conv_str o in
   let c_title := member "title" conv_str o in
   let c_desc := member "description" conv_str o in
@@ -230,6 +257,9 @@ Definition decodeTM (o : obj) : outcome tileMatrix :=
                   (cval c_sd dzero) (cval c_cs dzero) (cval c_co CornerUnset) (copt c_po)
                   (cval c_tw 0) (cval c_th 0) (cval c_mw 0) (cval c_mh 0) (copt c_vm) in
     if tm_valid m then Ok m else Error.
+
+Definition decodeTM (o : obj) : outcome tileMatrix :=
+  if uints_ok o then decodeTM_fields o else Error.
 
 (** map assignment tileMatrices[id] = tm, the map kept as a key-sorted list *)
 Fixpoint insert_tm (k : Z) (m : tileMatrix) (l : list (Z * tileMatrix)) : list (Z * tileMatrix) :=
